@@ -7,7 +7,7 @@ from ..css.properties import Dimension
 from ..formatting_structure import boxes
 from . import percent
 from .absolute import AbsolutePlaceholder, absolute_layout
-from .preferred import max_content_width, min_content_width, min_max
+from .preferred import max_content_width, min_content_width
 from .table import find_in_flow_baseline, table_wrapper_width
 
 
@@ -417,7 +417,6 @@ def flex_layout(context, box, bottom_space, skip_stack, containing_block, page_i
                                     scaled_flex_shrink_factors_sum)
                                 child.target_main_size = (
                                     child.flex_base_size + remaining_free_space * ratio)
-                        child.target_main_size = min_max(child, child.target_main_size)
 
             # 9.7.5.d Fix min/max violations.
             for index, child in line:
@@ -425,10 +424,10 @@ def flex_layout(context, box, bottom_space, skip_stack, containing_block, page_i
                 if not child.frozen:
                     min_size = getattr(child, f'min_{main}')
                     max_size = getattr(child, f'max_{main}')
-                    min_size = max(min_size , min(child.target_main_size, max_size))
-                    if child.target_main_size < min_size:
-                        child.adjustment = min_size - child.target_main_size
-                        child.target_main_size = min_size
+                    clamped_size = max(
+                        min_size, min(child.target_main_size, max_size))
+                    child.adjustment = clamped_size - child.target_main_size
+                    child.target_main_size = clamped_size
 
             # 9.7.5.e Freeze over-flexed items.
             adjustments = sum(child.adjustment for index, child in line)
